@@ -89,7 +89,7 @@ CHECKS = {
    design="3/C11"),
  "C02": dict(
    level="model_checking",
-   text="IR is built natively by go/ir from /repo for a hand-written corpus (~230 functions), a bounded-exhaustive family of generated programs (escapes, loops, break/continue/goto, early returns), 200 (thorough 3000) sampled goto-built CFGs and selected repository packages, "
+   text="IR is built natively by go/ir from /repo for a hand-written corpus (~230 functions), a bounded-exhaustive family of generated programs (escapes, loops, break/continue/goto, early returns), 200 (thorough 1500) sampled goto-built CFGs and selected repository packages, "
         "in 5 builder modes. Per function (<= 24 blocks quick, 60 thorough): dominance is decided by bounded path-existence SMT queries for every ordered block pair, def-dominates-use (incl. phi edges at the end of the "
         "predecessor) is read off that relation; operand/result typing is decided by the solver's sort checker over an encoding with one sort per Go type and one typed function per instruction rule (arithmetic, comparison, load/store, phi, return, field, index, map lookup/update, send, extract, closure bindings, calls), further documented rules are checked directly (MakeSlice, Slice, ChangeType, MakeInterface, TypeAssert, Alloc); "
         "terminator/phi-arity/pred-succ/operand-referrer clauses are checked as preconditions of the encoding.",
